@@ -137,6 +137,7 @@ type respRun struct {
 	Answered int          `json:"answered"` // engine Response counter
 	Seen     int          `json:"seen"`     // requests / calls the target saw
 	Variant  string       `json:"variant"`  // plain | debug (debug-level logger, answlog all, httptrace dump+trace)
+	Faults   int          `json:"faults"`   // handshake-level faults the TLS target injected (informational / machinery sanity)
 	Fatal    bool         `json:"fatal"`    // the documented fatal condition is being provoked
 	Mix      bool         `json:"mix"`
 	WallMs   int          `json:"wall_ms"` // informational
@@ -219,7 +220,8 @@ func grpcAmmo(letters []string) string {
 }
 
 type respPlan struct {
-	sub     int // n+1: the enumerated substr bounds against a header value of n bytes (one instance); 0: not such a run
+	tls     bool // handshake-level letter: the run goes to the TLS fault target, keep-alive off
+	sub     int  // n+1: the enumerated substr bounds against a header value of n bytes (one instance); 0: not such a run
 	debug   bool
 	gun     string
 	posts   string
@@ -266,10 +268,20 @@ func planAll(mixes int, rnd *rand.Rand, h2 bool) []respPlan {
 		plans = append(plans, respPlan{gun: g, posts: map[string]string{"http": "none", "http/scenario": "all"}[g], letters: repeat("refused", shots), refused: true})
 		plans = append(plans, respPlan{gun: g, posts: map[string]string{"http": "none", "http/scenario": "all"}[g], letters: repeat("timeout", shots), timeout: true})
 	}
-	// the side channels that also touch the response: debug-level logging, answlog, httptrace dump
-	for _, l := range []string{"s200", "s500", "s204", "trunc", "badchunk", "closebefore", "badheader", "shorthdr", "notjson", "nothtml", "empty"} {
+	// the side channels that also touch the response: debug-level logging, answlog, httptrace dump - with every
+	// transport-failure letter (no response at all), the body-failure letters and a few well-formed ones
+	for _, l := range []string{"s200", "s500", "s204", "trunc", "badchunk", "closebefore", "closeduring", "badheader", "badstatus", "hugeheader",
+		"shorthdr", "notjson", "nothtml", "empty"} {
 		plans = append(plans, respPlan{gun: "http", posts: "none", letters: repeat(l, shots), debug: true})
 		plans = append(plans, respPlan{gun: "http/scenario", posts: "all", letters: repeat(l, shots), debug: true})
+		if l == "closebefore" || l == "badstatus" || l == "s200" {
+			plans = append(plans, respPlan{gun: "connect", posts: "none", letters: repeat(l, shots), debug: true})
+		}
+	}
+	for _, g := range []string{"http", "http/scenario"} {
+		po := map[string]string{"http": "none", "http/scenario": "all"}[g]
+		plans = append(plans, respPlan{gun: g, posts: po, letters: repeat("refused", shots), refused: true, debug: true})
+		plans = append(plans, respPlan{gun: g, posts: po, letters: repeat("timeout", shots), timeout: true, debug: true})
 	}
 	for _, l := range []string{"c0", "c5", "c14", "gtoobig"} {
 		plans = append(plans, respPlan{gun: "grpc", posts: "none", letters: repeat(l, shots), debug: true})
@@ -295,6 +307,19 @@ func planAll(mixes int, rnd *rand.Rand, h2 bool) []respPlan {
 			}
 			plans = append(plans, respPlan{gun: g, posts: p, letters: repeat("nonh2", shots), fatal: true})
 		}
+		// TLS handshake level: a target that does speak HTTP/2 but fails a share of the handshakes
+		for _, g := range []string{"https", "http2", "http2/scenario"} {
+			p := map[string]string{"https": "none", "http2": "none", "http2/scenario": "all"}[g]
+			for _, l := range []string{"tlsalert", "tlsclose", "tlsreset"} {
+				plans = append(plans, respPlan{gun: g, posts: p, letters: repeat(l, shots), tls: true})
+				if g != "http2/scenario" {
+					plans = append(plans, respPlan{gun: g, posts: p, letters: repeat(l, shots), tls: true, debug: true})
+				}
+			}
+			if g != "http2/scenario" {
+				plans = append(plans, respPlan{gun: g, posts: p, letters: repeat("tlstimeout", shots), tls: true, timeout: true})
+			}
+		}
 	}
 	// seeded random mixtures (letters whose effect is confined to their own request)
 	mixHTTP := append(append(append(append([]string{}, httpStatus...), httpNet...), httpBody...), httpOdd...)
@@ -310,11 +335,11 @@ func planAll(mixes int, rnd *rand.Rand, h2 bool) []respPlan {
 		return out
 	}
 	for m := 0; m < mixes; m++ {
-		plans = append(plans, respPlan{gun: "http", posts: "none", letters: pick(mixHTTP), mix: true})
+		plans = append(plans, respPlan{gun: "http", posts: "none", letters: pick(mixHTTP), mix: true, debug: m%3 == 1})
 		if m%3 == 0 {
 			plans = append(plans, respPlan{gun: "connect", posts: "none", letters: pick(mixHTTP), mix: true})
 		}
-		plans = append(plans, respPlan{gun: "http/scenario", posts: allPosts[rnd.Intn(len(allPosts))], letters: pick(mixHTTP), mix: true})
+		plans = append(plans, respPlan{gun: "http/scenario", posts: allPosts[rnd.Intn(len(allPosts))], letters: pick(mixHTTP), mix: true, debug: m%3 == 2})
 		if m%2 == 0 {
 			plans = append(plans, respPlan{gun: "grpc", posts: "none", letters: pick(mixGrpc), mix: true})
 			plans = append(plans, respPlan{gun: "grpc/scenario", posts: "none", letters: pick(mixGrpc), mix: true})
@@ -329,6 +354,7 @@ type respTargets struct {
 	grpc *scentarget.GrpcTarget
 	h2   *httptest.Server
 	h1s  *httptest.Server
+	tls  *scentarget.TLSTarget
 	dead string
 }
 
@@ -366,6 +392,7 @@ func newTargets(h2 bool) *respTargets {
 		t.h1s = httptest.NewUnstartedServer(http.HandlerFunc(h2Handler))
 		t.h1s.TLS = &tls.Config{NextProtos: []string{"http/1.1"}}
 		t.h1s.StartTLS()
+		t.tls = scentarget.NewTLSTarget()
 	}
 	return t
 }
@@ -377,6 +404,7 @@ func (t *respTargets) close() {
 	if t.h2 != nil {
 		t.h2.Close()
 		t.h1s.Close()
+		t.tls.Close()
 	}
 }
 
@@ -406,7 +434,7 @@ func runPlan(idx int, p respPlan, t *respTargets, root string) respRun {
 	seenBefore := int64(0)
 	seen := func() int64 { return 0 }
 	switch p.gun {
-	case "http", "http/scenario", "http2", "http2/scenario", "connect":
+	case "http", "https", "http/scenario", "http2", "http2/scenario", "connect":
 		target = t.raw.Addr()
 		seen = t.raw.Requests
 		if p.timeout {
@@ -424,6 +452,16 @@ func runPlan(idx int, p respPlan, t *respTargets, root string) respRun {
 			}
 			extra += "      ssl: true\n      tls-handshake-timeout: 60s\n"
 			seen = func() int64 { return 0 }
+		}
+		if p.tls {
+			t.tls.SetMode(p.letters[0])
+			target = t.tls.Addr()
+			hs := "60s"
+			if p.letters[0] == "tlstimeout" {
+				hs = "150ms"
+			}
+			extra = "      ssl: true\n      disable-keep-alives: true\n      tls-handshake-timeout: " + hs + "\n"
+			seen = func() int64 { return t.tls.Requests.Load() }
 		}
 		if strings.HasSuffix(p.gun, "/scenario") {
 			ammoType, file, text = "http/scenario", filepath.Join(dir, "payload.yaml"), httpScenarioPayload(p.letters, p.posts)
@@ -448,7 +486,7 @@ func runPlan(idx int, p respPlan, t *respTargets, root string) respRun {
 	log := zap.NewNop()
 	if p.debug {
 		extra += fmt.Sprintf("      answlog:\n        enabled: true\n        filter: all\n        path: %s\n", filepath.Join(dir, "answ.log"))
-		if strings.HasPrefix(p.gun, "http") {
+		if strings.HasPrefix(p.gun, "http") || p.gun == "connect" {
 			extra += "      httptrace:\n        dump: true\n        trace: true\n"
 		}
 		log = zap.New(zapcore.NewCore(zapcore.NewJSONEncoder(zap.NewProductionEncoderConfig()), zapcore.AddSync(io.Discard), zap.DebugLevel))
@@ -457,7 +495,11 @@ func runPlan(idx int, p respPlan, t *respTargets, root string) respRun {
 	if err := os.WriteFile(file, []byte(text), 0o644); err != nil {
 		panic(err)
 	}
-	conf, err := buildEngineConf(poolYAML(fmt.Sprintf("r%d", idx), p.gun, ammoType, file, target, res.Shots, res.Inst, extra), idx%2 == 1)
+	gunType := p.gun
+	if gunType == "https" {
+		gunType = "http"
+	}
+	conf, err := buildEngineConf(poolYAML(fmt.Sprintf("r%d", idx), gunType, ammoType, file, target, res.Shots, res.Inst, extra), idx%2 == 1)
 	if err != nil {
 		res.BuildErr = err.Error()
 		return res
@@ -472,6 +514,10 @@ func runPlan(idx int, p respPlan, t *respTargets, root string) respRun {
 	res.WallMs = int(time.Since(t0) / time.Millisecond)
 	res.Fired, res.Answered = int(m.Request.Get()), int(m.Response.Get())
 	res.Seen = int(seen() - seenBefore)
+	if p.tls {
+		res.Faults = int(t.tls.Faults.Load())
+		t.tls.SetMode("")
+	}
 	if p.sub > 0 {
 		got := t.raw.Echoed(casePrefix)
 		for i := range res.Cases {
